@@ -59,6 +59,11 @@ fn rand_item(rng: &mut Rng, allow_breaks: bool) -> Expr {
             num_lit(&format!("{}", v), v as f64)
         }
         5 => {
+            if rng.chance(1, 6) {
+                // a negative zero (SINGLE, DOUBLE): a zero, printed with a leading space
+                let t = *rng.pick(&["(0 * (-1.5))", "(0 * (-0.5#))", "(-(0.5 - 0.5))"]);
+                return num_lit(t, 0.0);
+            }
             let (t, v) = *rng.pick(&[
                 ("1.5", 1.5),
                 ("-0.25", -0.25),
